@@ -167,7 +167,49 @@ func genStore() (string, error) {
 			seq = append(seq, f)
 		}
 	}
-	fmt.Fprintf(&b, "/-- `Store.Flush`: the transactions committed into the shared batch, in order -/\ndef flushCommits : List String := %s\n\n", strList(seq))
+	fmt.Fprintf(&b, "/-- `Store.Flush`: the transactions committed into the shared batch, in order -/\ndef flushCommits : List String := %s\n", strList(seq))
+	// the shape of Flush at statement level: each top-level statement is `if <guard> { if e := X.Commit(); e != nil
+	// { return Err } }`, `if e := X.Commit(); e != nil { return Err }` (guard ""), or the final `return nil`; anything
+	// else (an early success return, a branch on the kind of store) is recorded as such
+	var flushShape [][2]string
+	var commitOf func(st ast.Stmt) string
+	commitOf = func(st ast.Stmt) string {
+		is, ok := st.(*ast.IfStmt)
+		if !ok || is.Init == nil || is.Else != nil || len(is.Body.List) != 1 {
+			return ""
+		}
+		as, ok := is.Init.(*ast.AssignStmt)
+		if !ok || len(as.Rhs) != 1 {
+			return ""
+		}
+		call, ok := as.Rhs[0].(*ast.CallExpr)
+		if !ok || !strings.HasSuffix(g.ExprText(call.Fun), ".Commit") {
+			return ""
+		}
+		r, ok := is.Body.List[0].(*ast.ReturnStmt)
+		if !ok || len(r.Results) != 1 || g.ExprText(r.Results[0]) == "nil" {
+			return ""
+		}
+		return g.ExprText(call.Fun)
+	}
+	for _, st := range fd.Body.List {
+		if c := commitOf(st); c != "" {
+			flushShape = append(flushShape, [2]string{"", c})
+			continue
+		}
+		if is, ok := st.(*ast.IfStmt); ok && is.Init == nil && is.Else == nil && len(is.Body.List) == 1 {
+			if c := commitOf(is.Body.List[0]); c != "" {
+				flushShape = append(flushShape, [2]string{g.ExprText(is.Cond), c})
+				continue
+			}
+		}
+		if r, ok := st.(*ast.ReturnStmt); ok && len(r.Results) == 1 && g.ExprText(r.Results[0]) == "nil" {
+			flushShape = append(flushShape, [2]string{"", "return nil"})
+			continue
+		}
+		flushShape = append(flushShape, [2]string{"other", fmt.Sprintf("%T", st)})
+	}
+	fmt.Fprintf(&b, "/-- `Store.Flush`, statement by statement: (guard, transaction committed into the parent/batch); no other statements -/\ndef flushShape : List (String × String) := %s\n\n", pairList(flushShape))
 	// 4. Root: the SMT's transaction
 	fd, err = need("Store", "Root")
 	if err != nil {
